@@ -233,7 +233,15 @@ func (w *world) runWaiter(x *waiter) {
 		}
 	case 3:
 		c.Descf("waiter %d: WaitValueWithValidator(>=%d)", x.id, x.k)
-		v, err = w.cc.WaitValueWithValidator(ctx, func(v int) (bool, error) { return v >= x.k, nil }, errCh)
+		peek := c.S.PlanP(400)
+		v, err = w.cc.WaitValueWithValidator(ctx, func(v int) (bool, error) {
+			if peek {
+				// a validator may look at the container again (validators run without its lock)
+				c.S.Count("probe:validator-reads-container")
+				_ = w.cc.GetValue()
+			}
+			return v >= x.k, nil
+		}, errCh)
 	default:
 		x.validErr = errors.New("validator-error")
 		c.Descf("waiter %d: WaitValueWithValidator(>=%d, error at multiples of 3)", x.id, x.k)
